@@ -359,10 +359,14 @@ def _here(res, case):
                 seen['text'] = 'ERR %s' % ex
 
     pre = "[setup]\ndef string S = '%s'\n" % SVAL
-    for variant in ('terminated', 'terminator-last-no-newline', 'missing-terminator'):
+    for variant in ('terminated', 'terminator-last-no-newline', 'missing-terminator', 'continued', 'continued-no-final-newline'):
         hd = 'file f.txt = <<%s\n' % marker + ''.join(l + '\n' for l in lines)
         if variant == 'terminated':
             case_ = pre + hd + marker + '\nrun % reader\n[act]\n'
+        elif variant.startswith('continued'):
+            # the instruction goes on after the here-document (optional transformation on the next line), and a later instruction holds a lone
+            # quote character in a text-until-end-of-line; the file ends with / without a final new-line
+            case_ = '[cleanup]\nrun % reader\n' + pre + hd + marker + "\n   -transformed-by char-case -to-upper\nfile g.txt = :> it's" + ('\n' if variant == 'continued' else '')
         elif variant == 'terminator-last-no-newline':
             case_ = '[cleanup]\nrun % reader\n' + pre + hd + marker
         else:
@@ -377,9 +381,10 @@ def _here(res, case):
             elif 'line 3' not in o.err or ('file f.txt = <<%s' % marker) not in o.err:
                 res.violation(case, ['here-document without terminator: the error report does not name the instruction (line 3, `file f.txt = <<%s`): %r' % (marker, o.err[:400])], {'file': case_})
         else:
-            if o.ident != 'PASS' or seen.get('text') != d:
+            dd = d.upper() if variant.startswith('continued') else d
+            if o.ident != 'PASS' or seen.get('text') != dd:
                 res.violation(case, ['here-document <<%s with body lines %r (%s) denotes %r; file holds %r, outcome %s / %s' % (
-                    marker, lines, variant, d, seen.get('text'), o.ident, ' / '.join(cli.stderr_lines(o.err)[-3:])[:300])], {'file': case_})
+                    marker, lines, variant, dd, seen.get('text'), o.ident, ' / '.join(cli.stderr_lines(o.err)[-3:])[:300])], {'file': case_})
     res.nontrivial += 1
 
 
